@@ -25,7 +25,9 @@ Inductive kstep :=
 | KReg (r : rreg)                                (* one call of the resolver *)
 | KRegDelete (k : nat)                           (* delete(): every reference to digest k goes *)
 | KSave (s : sstep)                              (* a step of saveIndex *)
-| KRemove (k : nat).                             (* s.storage.Delete: the blob file goes *)
+| KRemove (k : nat)                              (* s.storage.Delete: the blob file goes *)
+| KRegGC (g : nat)                               (* gcIndex of GC call g: only references to kept content remain *)
+| KSweep (g : nat).                              (* GC's sweep: the blob files of content not kept go *)
 
 (* what a registration refers to *)
 Definition rreg_node (r : rreg) : option nat :=
@@ -36,8 +38,9 @@ Record tstate := mkTS {
   ts_mode : lmode; ts_hold : bool; ts_snapped : bool; ts_dirty : bool;
   ts_ver : list nat;      (* content seen to exist while the store lock is held *)
   ts_clr : list nat;      (* content whose references were dropped under the exclusive lock *)
-  ts_dig : list nat }.    (* content whose digest reference this thread registered under its lock *)
-Definition ts0 : tstate := mkTS MNone false false false [] [] [].
+  ts_dig : list nat;      (* content whose digest reference this thread registered under its lock *)
+  ts_gc : list nat }.     (* GC calls whose gcIndex this thread has run under the exclusive lock *)
+Definition ts0 : tstate := mkTS MNone false false false [] [] [] [].
 
 Definition tstep_ok (a : tstate) (st : kstep) : bool :=
   match st with
@@ -47,7 +50,8 @@ Definition tstep_ok (a : tstate) (st : kstep) : bool :=
   | KExists _ | KCreate _ => negb (lmode_eqb (ts_mode a) MNone)
   | KReg r => negb (lmode_eqb (ts_mode a) MNone) &&
               match rreg_node r with Some k => mem k (ts_ver a) && negb (mem k (ts_clr a)) | None => true end &&
-              match r with RegTag _ d => mem (d_node d) (ts_dig a) | _ => true end   (* Store.tag: digest entry first *)
+              match r with RegTag _ d => mem (d_node d) (ts_dig a) | _ => true end &&  (* Store.tag: digest entry first *)
+              match ts_gc a with [] => true | _ => false end
   | KRegDelete _ => lmode_eqb (ts_mode a) MExcl
   | KSave SLock => negb (lmode_eqb (ts_mode a) MNone) && negb (ts_hold a)
   | KSave SSnap => ts_hold a
@@ -55,21 +59,26 @@ Definition tstep_ok (a : tstate) (st : kstep) : bool :=
   | KSave SUnlock => ts_hold a && negb (ts_snapped a)
   | KRemove k => lmode_eqb (ts_mode a) MExcl && mem k (ts_clr a) && negb (ts_hold a) &&
                  negb (ts_snapped a) && negb (ts_dirty a)
+  | KRegGC _ => lmode_eqb (ts_mode a) MExcl
+  | KSweep g => lmode_eqb (ts_mode a) MExcl && mem g (ts_gc a) && negb (ts_hold a) &&
+                negb (ts_snapped a) && negb (ts_dirty a)
   end.
 Definition tnext (a : tstate) (st : kstep) : tstate :=
   match st with
-  | KRLock => mkTS MShared (ts_hold a) (ts_snapped a) (ts_dirty a) [] [] []
-  | KWLock => mkTS MExcl (ts_hold a) (ts_snapped a) (ts_dirty a) [] [] []
-  | KRUnlock | KWUnlock => mkTS MNone (ts_hold a) (ts_snapped a) (ts_dirty a) [] [] []
-  | KExists k | KCreate k => mkTS (ts_mode a) (ts_hold a) (ts_snapped a) (ts_dirty a) (k :: ts_ver a) (ts_clr a) (ts_dig a)
+  | KRLock => mkTS MShared (ts_hold a) (ts_snapped a) (ts_dirty a) [] [] [] []
+  | KWLock => mkTS MExcl (ts_hold a) (ts_snapped a) (ts_dirty a) [] [] [] []
+  | KRUnlock | KWUnlock => mkTS MNone (ts_hold a) (ts_snapped a) (ts_dirty a) [] [] [] []
+  | KExists k | KCreate k => mkTS (ts_mode a) (ts_hold a) (ts_snapped a) (ts_dirty a) (k :: ts_ver a) (ts_clr a) (ts_dig a) (ts_gc a)
   | KReg r => mkTS (ts_mode a) (ts_hold a) (ts_snapped a) true (ts_ver a) (ts_clr a)
-                   (match r with RegDig d => d_node d :: ts_dig a | _ => ts_dig a end)
-  | KRegDelete k => mkTS (ts_mode a) (ts_hold a) (ts_snapped a) true (ts_ver a) (k :: ts_clr a) []
-  | KSave SLock => mkTS (ts_mode a) true (ts_snapped a) (ts_dirty a) (ts_ver a) (ts_clr a) (ts_dig a)
-  | KSave SSnap => mkTS (ts_mode a) (ts_hold a) true false (ts_ver a) (ts_clr a) (ts_dig a)
-  | KSave SWrite => mkTS (ts_mode a) (ts_hold a) false (ts_dirty a) (ts_ver a) (ts_clr a) (ts_dig a)
-  | KSave SUnlock => mkTS (ts_mode a) false (ts_snapped a) (ts_dirty a) (ts_ver a) (ts_clr a) (ts_dig a)
-  | KRemove _ => mkTS (ts_mode a) (ts_hold a) (ts_snapped a) (ts_dirty a) [] (ts_clr a) (ts_dig a)
+                   (match r with RegDig d => d_node d :: ts_dig a | _ => ts_dig a end) (ts_gc a)
+  | KRegDelete k => mkTS (ts_mode a) (ts_hold a) (ts_snapped a) true (ts_ver a) (k :: ts_clr a) [] (ts_gc a)
+  | KSave SLock => mkTS (ts_mode a) true (ts_snapped a) (ts_dirty a) (ts_ver a) (ts_clr a) (ts_dig a) (ts_gc a)
+  | KSave SSnap => mkTS (ts_mode a) (ts_hold a) true false (ts_ver a) (ts_clr a) (ts_dig a) (ts_gc a)
+  | KSave SWrite => mkTS (ts_mode a) (ts_hold a) false (ts_dirty a) (ts_ver a) (ts_clr a) (ts_dig a) (ts_gc a)
+  | KSave SUnlock => mkTS (ts_mode a) false (ts_snapped a) (ts_dirty a) (ts_ver a) (ts_clr a) (ts_dig a) (ts_gc a)
+  | KRemove _ => mkTS (ts_mode a) (ts_hold a) (ts_snapped a) (ts_dirty a) [] (ts_clr a) (ts_dig a) (ts_gc a)
+  | KRegGC g => mkTS (ts_mode a) (ts_hold a) (ts_snapped a) true (ts_ver a) (ts_clr a) [] (g :: ts_gc a)
+  | KSweep _ => mkTS (ts_mode a) (ts_hold a) (ts_snapped a) (ts_dirty a) [] (ts_clr a) (ts_dig a) (ts_gc a)
   end.
 (* a program respects the lock discipline from type state [a] on, and ends with every lock released *)
 Fixpoint check (a : tstate) (p : list kstep) : bool :=
@@ -82,7 +91,8 @@ Fixpoint check (a : tstate) (p : list kstep) : bool :=
 Record lthread := mkLT { l_prog : list kstep; l_ts : tstate; l_snap : option rmap; l_ok : bool }.
 Record lstate := mkLS {
   ll_live : rmap; ll_disk : list desc; ll_blobs : list nat; ll_ilock : option nat;
-  ll_n : nat; ll_ths : nat -> lthread }.
+  ll_n : nat; ll_ths : nat -> lthread;
+  ll_keep : nat -> nat -> bool }.   (* what GC call g keeps (the nodes of its rebuilt graph): constant *)
 
 Definition lupd (f : nat -> lthread) (i : nat) (t : lthread) : nat -> lthread :=
   fun j => if Nat.eqb j i then t else f j.
@@ -90,6 +100,8 @@ Definition others (s : lstate) (i : nat) (p : lthread -> bool) : bool :=
   forallb (fun j => Nat.eqb j i || p (ll_ths s j)) (seq 0 (ll_n s)).
 
 Definition delete_refs (k : nat) (ix : rmap) : rmap := filter (fun kv => negb (Nat.eqb (d_node (snd kv)) k)) ix.
+
+Definition gc_refs (keep : nat -> bool) (ix : rmap) : rmap := filter (fun kv => keep (d_node (snd kv))) ix.
 
 (* one atomic step of thread i < n; c: the map orders of a write *)
 Definition l_step (i : nat) (c : list nat * list nat) (s : lstate) : option lstate :=
@@ -100,7 +112,7 @@ Definition l_step (i : nat) (c : list nat * list nat) (s : lstate) : option lsta
   | st :: p =>
     let a := l_ts t in
     let fin live disk blobs il snap ok :=
-      Some (mkLS live disk blobs il (ll_n s) (lupd (ll_ths s) i (mkLT p (tnext a st) snap ok))) in
+      Some (mkLS live disk blobs il (ll_n s) (lupd (ll_ths s) i (mkLT p (tnext a st) snap ok)) (ll_keep s)) in
     let same snap ok := fin (ll_live s) (ll_disk s) (ll_blobs s) (ll_ilock s) snap ok in
     match st with
     | KRLock => if others s i (fun u => negb (lmode_eqb (ts_mode (l_ts u)) MExcl)) then same (l_snap t) true else None
@@ -117,6 +129,8 @@ Definition l_step (i : nat) (c : list nat * list nat) (s : lstate) : option lsta
           (ll_blobs s) (ll_ilock s) (l_snap t) (l_ok t)
     | KSave SUnlock => fin (ll_live s) (ll_disk s) (ll_blobs s) None None (l_ok t)
     | KRemove k => fin (ll_live s) (ll_disk s) (del k (ll_blobs s)) (ll_ilock s) (l_snap t) (l_ok t)
+    | KRegGC g => fin (gc_refs (ll_keep s g) (ll_live s)) (ll_disk s) (ll_blobs s) (ll_ilock s) (l_snap t) (l_ok t)
+    | KSweep g => fin (ll_live s) (ll_disk s) (filter (ll_keep s g) (ll_blobs s)) (ll_ilock s) (l_snap t) (l_ok t)
     end
   end.
 
@@ -187,8 +201,17 @@ Definition prog_delete (k : nat) : list kstep :=
     else if str_eqb c (b "s.storage.Delete") then [KRemove k]
     else []) KWUnlock.
 
+(* GC call g: exclusive lock, gcIndex, saveIndex, sweep (c08_calls_GC) *)
+Definition prog_gc (g : nat) : list kstep :=
+  prog_of_calls c08_calls_GC (fun c =>
+    if str_eqb c (b "s.sync.Lock") then [KWLock]
+    else if str_eqb c (b "s.gcIndex") then [KRegGC g]
+    else if str_eqb c (b "s.saveIndex") then ksave
+    else if str_eqb c (b "os.Remove") then [KSweep g]
+    else []) KWUnlock.
+
 (* a thread that runs a list of operations *)
-Inductive lop := LTag (d : desc) (t : nat) | LUntag (t : nat) | LSaveIndex | LPush (k : nat) (manifest : bool) | LDelete (k : nat).
+Inductive lop := LTag (d : desc) (t : nat) | LUntag (t : nat) | LSaveIndex | LPush (k : nat) (manifest : bool) | LDelete (k : nat) | LGC (g : nat).
 Definition prog_of_lop (o : lop) : list kstep :=
   match o with
   | LTag d t => prog_tag d t
@@ -196,5 +219,6 @@ Definition prog_of_lop (o : lop) : list kstep :=
   | LSaveIndex => prog_saveindex
   | LPush k m => prog_push k m
   | LDelete k => prog_delete k
+  | LGC g => prog_gc g
   end.
 Definition prog_of_lops (ops : list lop) : list kstep := flat_map prog_of_lop ops.
